@@ -132,3 +132,14 @@ pub const SELF_TARGET_PROGRAMS: &[&str] = &[
     "xs := [[1], [2]]\n[xs[1][0], xs[0][0]] = [xs[0][0], xs[1][0]]\nprint(xs)\n",
     "o := {\"m\": {\"x\": 1}}\n[o.m.x, o.n] = [2, 3]\nprint(o)\n",
 ];
+
+/// a function read from an object keeps that object as `this` through every route a value can take
+/// inside containers (shared by C11 and C14)
+pub const BOUND_ROUTE_PROGRAMS: &[&str] = &[
+    "o := {\"id\": \"O\", \"m\": fn () {\nreturn this.id\n}}\nxs := [o.m, \"abc\"->len]\nprint(xs[0]())\nprint(xs[0:1][0]())\nprint(xs[:][0]())\nprint(xs[1:][0]())\nprint((xs + [])[0]())\nprint([xs..][0]())\n",
+    "a := {\"id\": \"A\", \"f\": fn () {\nreturn this.id\n}}\nb := {\"id\": \"B\", \"f\": a.f}\nxs := [0, 0, 0]\nxs[0:2] = [a.f, b.f]\nprint(xs[0]())\nprint(xs[1]())\nxs[2] = b.f\nprint(xs[2]())\nxs[1:] = [a.f, a.f]\nprint(xs[2]())\n",
+    "a := {\"id\": \"A\", \"f\": fn () {\nreturn this.id\n}}\nb := {\"id\": \"B\", \"f\": a.f}\n[p, q] := [a.f, b.f]\nprint(p())\nprint(q())\n[r, ..s] := [b.f, a.f]\nprint(r())\nprint(s[0]())\nfor [i, h] in [a.f, b.f] {\nprint(h())\n}\nfn call([u, w]) {\nreturn [u(), w()]\n}\nprint(call([b.f, a.f]))\n",
+    "a := {\"id\": \"A\", \"f\": fn () {\nreturn this.id\n}}\nh := {\"g\": a.f, \"id\": \"H\"}\n{\"g\": k} := h\nprint(k())\n{..r} := h\nprint(r.g())\nc := {h..}\nprint(c.g())\nfn pass(f) {\nreturn f\n}\nprint(pass(a.f)())\nprint(pass(h.g)())\n",
+    "o := {\"id\": \"O\", \"helper\": fn () {\nreturn this.id\n}, \"run\": fn () {\nreturn this.helper() + this.helper()\n}, \"count\": fn (n) {\nif n == 0 {\nreturn this.id\n}\nreturn this.count(n - 1)\n}}\nprint(o.run())\nprint(o.count(3))\np := {\"id\": \"P\", \"helper\": o.helper, \"run\": o.run, \"count\": o.count}\nprint(p.run())\nprint(p.count(2))\n",
+    "fn mk(id) {\nreturn {\"id\": id, \"helper\": fn () {\nreturn this.id\n}, \"run\": fn () {\nreturn this.helper()\n}}\n}\nx := mk(\"X\")\ny := mk(\"Y\")\ny.run = x.run\nprint(x.run())\nprint(y.run())\n",
+];
